@@ -119,6 +119,7 @@ struct Cov {
     pairs: HashSet<(Op, u32, Op, u32)>,
     steps: u64,
     inspections: u64,
+    blocked: u64,
 }
 
 fn judge_execution(which: Which, ex: &Execution, range_viol: &[String], part: &mut Report, lst: &mut LinStats, ast: &mut AckStats) -> Vec<String> {
@@ -203,6 +204,7 @@ fn run_one(
     });
     if let Some(e) = &ex.exec {
         cov.steps += e.steps;
+        cov.blocked += e.blocked_events;
         cov.schedules.insert(fnv_mix(e.trace_hash, prog.hash()));
         cov.sites.extend(e.sites.iter().copied());
         for ((op, line), file) in &e.site_files {
@@ -243,6 +245,7 @@ pub fn level_into(which: Which, rep: &mut Report) {
             pairs: HashSet::new(),
             steps: 0,
             inspections: 0,
+            blocked: 0,
         };
         let mut lst = LinStats {
             ids_searched: 0,
@@ -377,6 +380,7 @@ pub fn level_into(which: Which, rep: &mut Report) {
         pairs: HashSet::new(),
         steps: 0,
         inspections: 0,
+        blocked: 0,
     };
     for c in covs.into_inner().unwrap() {
         all.schedules.extend(c.schedules);
@@ -385,9 +389,11 @@ pub fn level_into(which: Which, rep: &mut Report) {
         all.site_names.extend(c.site_names);
         all.pairs.extend(c.pairs);
         all.steps += c.steps;
+        all.blocked += c.blocked;
         all.inspections += c.inspections;
     }
     rep.set("steps", json!(all.steps));
+    rep.set("workers_presumed_blocked_on_a_lock", json!(all.blocked));
     rep.set("distinct_schedules", json!(all.schedules.len()));
     rep.set("distinct_programs", json!(all.programs.len()));
     rep.set("hook_sites_reached", json!(all.sites.len()));
@@ -496,6 +502,16 @@ fn e2_pass(which: Which, rep: &mut Report, n: u64) {
                 i += nw as u64;
                 continue;
             }
+            if ex.conflicting() {
+                // distinct = (program, outcome): free-running schedules are not observable
+                let mut h = ex.prog.hash();
+                for l in ex.describe().iter().skip(1 + ex.prog.threads.len()) {
+                    let body = l.splitn(2, "] ").nth(1).unwrap_or(l);
+                    h = fnv_mix(h, crate::rng::fnv(body.as_bytes()));
+                }
+                part.distinct.insert(h);
+                part.add("e2_conflicting_executions", 1);
+            }
             let (inc, findings): (Vec<String>, Vec<String>) = findings.into_iter().partition(|f| f.starts_with(lin::INCONCLUSIVE));
             for f in inc {
                 part.inconclusive(format!("[E2 program {}] {}", i, &f[lin::INCONCLUSIVE.len()..]));
@@ -540,6 +556,7 @@ pub fn replay_e1(r: &Value) -> i32 {
         pairs: HashSet::new(),
         steps: 0,
         inspections: 0,
+        blocked: 0,
     };
     let (ex, rv) = run_one(which, &prog, strat, sseed, &mut cov);
     for l in ex.describe() {
@@ -1749,6 +1766,7 @@ pub fn bounded_sweep(which: Which, rep: &mut Report, bound: u32, max_programs: u
             pairs: HashSet::new(),
             steps: 0,
             inspections: 0,
+            blocked: 0,
         };
         let mut lst = LinStats {
             ids_searched: 0,
